@@ -218,6 +218,24 @@ def generate():
         v = eval_int(re.sub(r"Self::(\w+)\.bits\(\)", lambda mm: str(env[mm.group(1)]), e), env)
         env[n] = v
         I("provision_flag_" + n.lower(), v, f)
+    for n in ("PROVISION_TAG_FILE_NAME", "STATUS_TAG_TMP_FILE_NAME", "STATUS_TAG_FILE_NAME"):
+        S("provision_" + n.lower(), rust_str(f, n), f)
+    # the lines of get_provision_failed_state_message: (flag tested, format string, module read), in code order
+    fbody = regex_str(f, r"async fn get_provision_failed_state_message\b.*?\{(.*?)\n\}", "get_provision_failed_state_message body")
+    plines = re.findall(r"!provision_state\.contains\(ProvisionFlags::(\w+)\)\s*\{\s*state\.push_str\(&format!\(\s*\"((?:[^\"\\]|\\.)*)\"\s*,.*?AgentStatusModule::(\w+)", fbody, flags=re.S)
+    if len(plines) != 3:
+        raise Missing("%s: get_provision_failed_state_message: expected 3 `if !provision_state.contains(..)` lines, found %d" % (f, len(plines)))
+    for flag, fmt, module in plines:
+        fmt = bytes(fmt, "utf-8").decode("unicode_escape")
+        if fmt.count("{}") != 1:
+            raise Missing("%s: format string %r of the %s line has no single {}" % (f, fmt, flag))
+        pre, suf = fmt.split("{}")
+        S("provision_line_prefix_" + flag.lower(), pre, f)
+        S("provision_line_suffix_" + flag.lower(), suf, f)
+        S("provision_line_module_" + flag.lower(), module, f)
+    provision_line_order = [env[flag] for flag, _, _ in plines]
+    f = "proxy_agent/src/shared_state.rs"
+    S("unknown_status_message", rust_str(f, "UNKNOWN_STATUS_MESSAGE"), f)
 
     # ---- key keeper (C08 / C09) ----
     f = "proxy_agent/src/key_keeper.rs"
@@ -333,6 +351,8 @@ def generate():
     lines.append("(* signature-exempt (method, lower-case url) pairs of should_skip_sig *)")
     lines.append("Definition skip_sig_pairs : list (list N * list N) := [%s]." % "; ".join(
         "(%s, %s)" % (coq_bytes(m), coq_bytes(u)) for m, u in skip_pairs))
+    lines.append("(* flags tested by get_provision_failed_state_message, in the order of its lines (C16) *)")
+    lines.append("Definition provision_line_order : list N := [%s]." % "; ".join(str(v) for v in provision_line_order))
     lines.append("End Consts.")
     return "\n".join(lines) + "\n", {c: v for c, v, _ in ints}, {c: v for c, v, _ in strs}, skip_pairs
 
